@@ -659,6 +659,20 @@ theorem createCVSameSizeBalanced_folds {ι : Type} (set : LabeledData ι Nat) (h
   rw [hsnd] at hpairs
   exact ⟨els, pick_eq set hw first els hpick, hpairs, hpm.trans hperm', s1, s2⟩
 
+/-- **class balance of detail::createCVSameSizeBalanced with a membership vector** (any label type — the regression-label
+path): for every outcome of the shuffles, the members of class c are dealt at the window of dealing positions
+[a, a+m) (a = members of earlier classes, m = `members[c].length`; the piece of the dealing order there is a permutation
+of `members[c]`), dealing position j goes to fold j mod k, hence any two folds p, q < k receive numbers of members of c
+that differ by at most one -/
+theorem balancedMembers_class_balance (members : List (List Nat)) (seq : List Nat)
+    (h : validMembersSeq members seq = true) (c : Nat) (mc : List Nat) (hc : members[c]? = some mc)
+    (k p q : Nat) (hk : 0 < k) (hp : p < k) (hq : q < k) :
+    let a := ((members.take c).map List.length).sum
+    ((seq.drop a).take mc.length).Perm mc ∧
+    ((List.range mc.length).filter fun j => (a + j) % k = p).length ≤
+      ((List.range mc.length).filter fun j => (a + j) % k = q).length + 1 :=
+  ⟨CVMembers.members_window members seq h c mc hc, dealing_class_balance k _ mc.length p q hk hp hq⟩
+
 /-! ## non-vacuity -/
 example : complementSD [3, 1, 3] 5 = [0, 2, 4] := by rw [complementSD_eq]; decide
 /-- witness that the sort in `detail::complement` is needed: the single merge pass over the unsorted index set
@@ -670,6 +684,7 @@ def mergePass : List Nat → List Nat → List Nat
 example : mergePass (List.range 3) [2, 0] = [0, 1] ∧ Data.complement [2, 0] 3 = [1] := by decide
 example : dealLoop [(10, 1), (11, 0), (12, 1), (13, 1)] 2 3 [0, 1] [1, 2, 1] = some [[11], [10, 12], [13]] := by decide
 example : batchFoldsLoop 2 1 1 [2, 0, 1] = [[2, 0], [1]] := by decide
+example : validMembersSeq [[0, 3], [], [1, 2]] [3, 0, 2, 1] = true ∧ validSeq [0, 2, 2, 0] [3, 0, 2, 1] = true := by decide
 example : optimalBatchSizes 5 0 = some [5] ∧ optimalBatchSizes 0 3 = some [] := by decide
 example : ∃ f vd, createCVIndexed (⟨⟨[[10, 11], [12]], [1]⟩, ⟨[[0, 1], [0]], []⟩⟩ : LabeledData Nat Nat) 3 [2, 0, 2] 0 = .ok f ∧
     f.size = 3 ∧ f.validation 1 = .ok vd ∧ C03.pairs vd = [] ∧ C03.pairs f.dataset = [(11, 1), (10, 0), (12, 0)] :=
